@@ -149,7 +149,9 @@ class Contract:
                  assumed=None, self_cls=None, fp=False, canaries=(), native=None,
                  name=None, ghosts=None, lemmas=(), notes='', bounded=None, returns=None,
                  old_exprs=(), max_paths=400, loop_modifies=None, abstract=None,
-                 config_filter=None, unroll=0, defs=None, lets=None, sampler=None):
+                 config_filter=None, unroll=0, defs=None, lets=None, sampler=None,
+                 ghost_init=None, ghost_on_call=None, no_sampling=False,
+                 ghost_on_result=None, native_expand=None, native_ensures=()):
         self.target = target
         self.props = list(props)
         self.params = params
@@ -179,6 +181,12 @@ class Contract:
         self.defs = dict(defs or {})
         self.lets = dict(lets or {})
         self.sampler = sampler
+        self.ghost_init = dict(ghost_init or {})
+        self.ghost_on_call = dict(ghost_on_call or {})
+        self.no_sampling = no_sampling
+        self.ghost_on_result = dict(ghost_on_result or {})
+        self.native_expand = native_expand
+        self.native_ensures = list(native_ensures)
 
 
 REGISTRY = {}
